@@ -620,3 +620,55 @@ async fn a_projection_never_claims_a_trust_judgement_it_did_not_make() {
         "{warnings:?}"
     );
 }
+
+#[tokio::test]
+async fn a_slot_read_at_a_coordinate_names_the_leading_value_it_named_then() {
+    // Two equally supported values tie, and the tie falls to whichever the
+    // slot enumerated last. A past coordinate has to enumerate in the same
+    // order the index does, or it names a different leader for the same state:
+    // "P-10" sorts before "P-9" as text and after it as an id.
+    let nexus = fresh("slot_leading_as_of").await;
+    let mut creates = String::from(r#"CREATE CONCEPT ?api { TYPE "Service" NAME "API" }"#);
+    for value in 1..=10 {
+        creates.push_str(&format!(
+            r#"
+            CREATE CONCEPT ?v{value} {{ TYPE "Status" NAME "value {value}" }}
+            ENSURE PROPOSITION ?p{value} (?api, "mentions", ?v{value})"#
+        ));
+    }
+    for value in [9, 10] {
+        creates.push_str(&format!(
+            r#"
+            CREATE ASSERTION ?a{value} {{
+                SET FIELDS {{proposition: ?p{value}, asserted_by: ?v{value}, stance: "support", mode: "stated", confidence: 0.7}}
+            }}"#
+        ));
+    }
+    let written = run(&nexus, &format!("MUTATE {{ {creates} }}")).await;
+    assert_eq!(written.status, TopLevelStatus::Succeeded, "{:#?}", written.error);
+    let seq = written.receipt.unwrap().space_seq.unwrap();
+    let api = written.results[0].result.as_ref().unwrap()["handles"]["api"]
+        .as_str()
+        .unwrap()
+        .to_string();
+
+    let leading = async |as_of: &str| {
+        let request = serde_json::from_value::<Request>(json!({
+            "kip": "2.0",
+            "operations": [{
+                "command": format!(r#"FIND(?slot.leading) WHERE {{ ?slot BELIEF SLOT (:api, "mentions") }}{as_of}"#),
+                "parameters": {"api": api}
+            }]
+        }))
+        .unwrap();
+        let parsed = request.operations[0].parse().unwrap();
+        let response = nexus
+            .execute(parsed, &request, &request.operations[0])
+            .await;
+        assert_eq!(response.status, TopLevelStatus::Succeeded, "{:#?}", response.error);
+        response.first_result().cloned().unwrap()
+    };
+    let now = leading("").await;
+    assert_eq!(now, json!(["P-10"]));
+    assert_eq!(leading(&format!(" AS OF SEQ {seq}")).await, now);
+}
